@@ -197,8 +197,28 @@ ROUND6 = {
 }
 for _k, _v in ROUND6.items():
     CLAIMED[_k]["text"] += _v
+ROUND7 = {
+ "C01": " Round 6: a counter handed to ext2fs_iblk_add_blocks() goes up only behind the allocator (C01.o).",
+ "C02": " Round 6: every group's fixed metadata is reserved before any location is judged (C02.i).",
+ "C03": " Round 6: the revoke record loop is bounded by the block's r_count (C03.i).",
+ "C04": " Round 6: the flush in front of the replay waits for the device (C04.g).",
+ "C05": " Round 6: in calculate_tree() the quantity measured against the capacity equals the number of entries written (C05.i, linear forms).",
+ "C06": " Round 6: a direct index into a null-terminated table stops short of the marker (C06.i); a debugfs function that tests current_fs dereferences it only behind a test (C06.j); buffers for ext2fs_inline_data_get() hold the whole inline area (C06.k); directory walkers stop when no entry header fits (C06.f); three genuine memory-safety defects repaired.",
+ "C07": " Round 6: a configuration is refused after the last thing that can switch the tested feature on (C07.g).",
+ "C10": " Round 6: a leaf split leaves something behind (C10.m; genuine defect repaired).",
+ "C11": " After round 5: clusters of a removed journal are released once (C11.j), no orphan file without a journal (C11.k), a request for e2fsck stands (C11.l), inode tables grow inside the file system (C11.m), the user taken off a shared journal is this file system (C11.n); five genuine defects repaired.  Round 6: quota off disables every type whatever Q_flag says (C11.o).",
+ "C13": " Round 6: flag constants of twelve families are used only in the field of their own family (C13.g); C13.a follows the flag translation into a helper.",
+ "C14": " Round 6: the walk that repairs extent checksums moves one node at a time (C14.l).",
+ "C15": " Round 6: a vacated slot of the attribute array is cleared whenever the count goes down (C15.i).",
+ "C16": " Round 6: an extent touching a range from outside does not count as removed (C16.i; genuine defect repaired).",
+ "C18": " Round 6: partial tail writes fill the block buffer first (C18.i, shared with C09.d); no error message of __populate_fs() is followed by a zero status (C18.j; genuine defect repaired).",
+ "C19": " Round 6: the pending-hole counter of the raw writer never reaches 0 behind a hole (C19.j).",
+ "C20": " Round 6: the owner of a block in a new backup area is searched among all old groups (C20.h).",
+}
+for _k, _v in ROUND7.items():
+    CLAIMED[_k]["text"] += _v
 for _k in CLAIMED:
-    CLAIMED[_k]["text"] += " Names of locals and parameters are mapped onto the pinned tree's before any rule runs (renaming all of them is silent)."
+    CLAIMED[_k]["text"] += " Names of locals, parameters and file-local functions are mapped onto the pinned tree's before any rule runs (renaming all of them is silent)."
 
 checks = []
 na = []
